@@ -295,6 +295,8 @@ class Folder:
     def fold(self, e):
         e0 = e
         k = e["k"]
+        if k == "__val__":
+            return e["v"]
         if k == "Lit":
             if "int" in e:
                 return e["int"]
@@ -504,7 +506,21 @@ class Folder:
         if k == "Tuple":
             return tuple(self.fold(x) for x in e["fields"])
         if k == "Loop":
-            raise Undecidable("loop")
+            # a general loop is executed only in effect mode and only up to a bound: inputs are members of a finite domain,
+            # a loop that does not finish within the bound is undecidable, never guessed
+            if not self.effects:
+                raise Undecidable("loop")
+            for _ in range(self.max_iter):
+                try:
+                    self.fold(e["body"])
+                except ContinueEx:
+                    continue
+                except BreakEx as bx:
+                    return bx.value
+            raise Undecidable("loop does not finish within %d iterations" % self.max_iter)
+        if k == "Zst":
+            # a function item used as a value (`.map(SymbolSize::num_data_codewords)`, `.all(u8::is_ascii_digit)`)
+            return {"__fn__": canon(e.get("resolved") or e.get("fn") or "?")}
         if k == "Closure":
             return {"__closure__": e["def"]}
         if k == "Break" and self.effects:
@@ -643,9 +659,44 @@ class Folder:
             return list(range(v["start"], v["end"] + 1)) if v["end"] - v["start"] <= 4096 else None
         return None
 
+    def _apply_fn_item(self, path, args):
+        last = path.split("::")[-1]
+        vals = [_loaded(a) for a in args]
+        if last == "is_ascii_digit" and len(vals) == 1 and isinstance(vals[0], int):
+            return 48 <= vals[0] <= 57
+        if last == "is_ascii" and len(vals) == 1 and isinstance(vals[0], int):
+            return vals[0] < 128
+        if last in ("Some", "Ok", "Err") and len(vals) == 1:
+            adt = "core::option::Option" if last == "Some" else "core::result::Result"
+            return {"__adt__": adt, "__variant__": last, "#0": vals[0], "0": vals[0]}
+        if last in ("from", "into") and len(vals) == 1 and isinstance(vals[0], int):
+            return vals[0]
+        if self.on_call:
+            fake = {"k": "Call", "callee": path, "resolved": path, "ty": "?", "span": {"file": "?", "line": 0, "col": 0},
+                    "args": [{"k": "__val__", "v": v} for v in vals]}
+            r = self.on_call(self, fake)
+            if r is not NotImplemented:
+                return r
+        body = None
+        for n, b in self.facts.thir.items():
+            if canon(n) == path:
+                body = b
+                break
+        if body is None or len(body["params"]) != len(vals) or self.local_calls <= 0:
+            raise Undecidable("function item " + path)
+        sub = Folder(self.facts, env={}, on_call=self.on_call, effects=True, local_calls=self.local_calls - 1)
+        for p, v in zip(body["params"], vals):
+            ok, bnd = sub._pat_match(p["pat"], v)
+            if not ok:
+                raise Undecidable("parameter pattern")
+            sub.env.update(bnd)
+        return sub.run(body["body"])
+
     def apply_closure(self, cl, args):
         """apply a closure value to argument values: its body is folded with the parameters bound (captured variables
         are read from the enclosing environment, which is still live for the adaptors modelled here)"""
+        if isinstance(cl, dict) and "__fn__" in cl:
+            return self._apply_fn_item(cl["__fn__"], args)
         if not (isinstance(cl, dict) and "__closure__" in cl):
             raise Undecidable("not a closure")
         cb = self.facts.thir.get(cl["__closure__"])
@@ -722,22 +773,22 @@ class Folder:
                 if last == "map" and len(a) == 2:
                     if not good:
                         return v
-                    r2 = self.apply_closure(self.fold(a[1]), [v.get("#0")]) if isinstance(self.fold(a[1]), dict) and "__closure__" in self.fold(a[1]) else None
-                    if r2 is None and not (isinstance(self.fold(a[1]), dict) and "__closure__" in self.fold(a[1])):
+                    r2 = self.apply_closure(self.fold(a[1]), [v.get("#0")]) if isinstance(self.fold(a[1]), dict) and ("__closure__" in self.fold(a[1]) or "__fn__" in self.fold(a[1])) else None
+                    if r2 is None and not (isinstance(self.fold(a[1]), dict) and ("__closure__" in self.fold(a[1]) or "__fn__" in self.fold(a[1]))):
                         return NotImplemented
                     return dict(v, **{"#0": r2, "0": r2})
                 if last == "map_or" and len(a) == 3:
                     if not good:
                         return self.fold(a[1])
                     cl = self.fold(a[2])
-                    if isinstance(cl, dict) and "__closure__" in cl:
+                    if isinstance(cl, dict) and ("__closure__" in cl or "__fn__" in cl):
                         return self.apply_closure(cl, [v.get("#0")])
                     return NotImplemented
                 if last == "is_some_and" and len(a) == 2:
                     if not good:
                         return False
                     cl = self.fold(a[1])
-                    if isinstance(cl, dict) and "__closure__" in cl:
+                    if isinstance(cl, dict) and ("__closure__" in cl or "__fn__" in cl):
                         return bool(self.apply_closure(cl, [v.get("#0")]))
                     return NotImplemented
                 if last == "and_then" and len(a) == 2:
@@ -823,7 +874,14 @@ class Folder:
                 for x in bs:
                     out = out * 256 + x
                 return out
-        if last in ("call", "call_mut", "call_once") and "ops::function" in cc and len(a) == 2:
+        if last in ("then", "then_some") and cc.startswith("core::bool") and len(a) == 2:
+            c0 = self.fold(a[0])
+            if isinstance(c0, bool):
+                if not c0:
+                    return {"__adt__": "core::option::Option", "__variant__": "None"}
+                v = self.apply_closure(self.fold(a[1]), []) if last == "then" else self.fold(a[1])
+                return {"__adt__": "core::option::Option", "__variant__": "Some", "#0": v, "0": v}
+        if last in ("call", "call_mut", "call_once") and cc.startswith("core::ops::") and len(a) == 2:
             cl = self.fold(a[0])
             if isinstance(cl, dict) and "__closure__" in cl:
                 args = self.fold(a[1])
@@ -855,7 +913,15 @@ class Folder:
         if last in ("iter", "into_iter", "copied", "cloned", "as_slice", "as_ref", "deref", "by_ref", "deref_mut", "as_mut_slice") and len(a) == 1:
             v = self.fold(a[0])
             if isinstance(v, list) or (self._iterable(v) is not None and last in ("into_iter", "by_ref")):
-                return v
+                # an iterator over a sequence is its own (shallow) list, so that `next()` can consume it without touching the source
+                return list(v) if isinstance(v, list) and last in ("iter", "into_iter") and self.effects else v
+            return NotImplemented
+        if last == "next" and len(a) == 1 and "Iterator" in cc:
+            v = self.fold(a[0])
+            if isinstance(v, list):
+                if not v:
+                    return opt(None, False)
+                return opt(_loaded(v.pop(0)) if False else v.pop(0))
             return NotImplemented
         if last in ("index", "index_mut") and ("ops::Index" in cc or "ops::index" in cc) and len(a) == 2:
             v = _loaded(self.fold(a[0]))
@@ -866,6 +932,29 @@ class Folder:
                 return _loaded(v[i])
             if isinstance(v, list) and isinstance(i, dict) and str(i.get("__adt__", "")).startswith("core::ops::Range"):
                 return self._subslice(v, i, e)
+            return NotImplemented
+        if cc.endswith("RangeInclusive::new") and len(a) == 2:
+            lo, hi = self.fold(a[0]), self.fold(a[1])
+            return {"__adt__": "core::ops::RangeInclusive", "__variant__": "RangeInclusive", "start": lo, "end": hi, "#0": lo, "#1": hi}
+        if last == "contains" and len(a) == 2 and ("ops::range" in cc or "ops::Range" in cc or "RangeBounds" in cc):
+            rg, x = self.fold(a[0]), _loaded(self.fold(a[1]))
+            if isinstance(rg, dict) and str(rg.get("__adt__", "")).startswith("core::ops::Range") and isinstance(x, int):
+                lo = rg.get("start") if "start" in rg else None
+                hi = rg.get("end") if "end" in rg else None
+                incl = str(rg["__adt__"]).endswith("Inclusive")
+                return (lo is None or lo <= x) and (hi is None or (x <= hi if incl else x < hi))
+            return NotImplemented
+        if cc in ("core::mem::replace", "core::mem::take") and a:
+            r0 = self.fold(a[0])
+            if isinstance(r0, Ref):
+                old_v = r0.load()
+                r0.store(self.fold(a[1]) if cc.endswith("replace") else ([] if isinstance(old_v, list) else 0 if isinstance(old_v, int) and not isinstance(old_v, bool) else False if isinstance(old_v, bool) else None))
+                return old_v
+            return NotImplemented
+        if last in ("chars", "bytes", "as_bytes") and len(a) == 1:
+            v = _loaded(self.fold(a[0]))
+            if isinstance(v, list):
+                return v
             return NotImplemented
         if cc.endswith("vec::from_elem") and len(a) == 2:
             x, n = self.fold(a[0]), self.fold(a[1])
@@ -955,9 +1044,15 @@ class Folder:
                     return [(x, y) for x, y in zip(seq, other)]
             if last in ("nth", "get") and isinstance(arg, int):
                 return opt(seq[arg]) if 0 <= arg < len(seq) else opt(None, False)
+            if last == "get" and isinstance(arg, dict) and str(arg.get("__adt__", "")).startswith("core::ops::Range"):
+                lo = arg.get("start", 0) if "start" in arg else 0
+                hi = arg.get("end", len(seq)) if "end" in arg else len(seq)
+                if str(arg.get("__adt__", "")).endswith("Inclusive"):
+                    hi += 1
+                return opt(list(seq[lo:hi])) if 0 <= lo <= hi <= len(seq) else opt(None, False)
             if last == "contains":
                 return arg in seq
-            if isinstance(arg, dict) and "__closure__" in arg:
+            if isinstance(arg, dict) and ("__closure__" in arg or "__fn__" in arg):
                 if last == "find":
                     for x in seq:
                         if self.apply_closure(arg, [x]):
@@ -1008,6 +1103,10 @@ class Folder:
             return self.fold(body)
         except ReturnEx as r:
             return r.value
+        except ContinueEx:
+            return None
+        except BreakEx as bx:
+            return bx.value
 
     def _pat_match(self, pat, v):
         k = pat["k"]
